@@ -354,6 +354,13 @@ def gen_bound(rng):
 
 
 def gen_bounds(rng, n):
+    if rng.random() < 0.12:
+        # every bound of every parameter a Python int (boxes as users write them): the samples are still real numbers
+        out = []
+        for _ in range(n):
+            lb = rng.randint(-20, 20)
+            out.append((lb, lb + rng.randint(1, 13)))
+        return out
     return [gen_bound(rng) for _ in range(n)]
 
 
